@@ -109,23 +109,21 @@ theorem looksLikeDateCore_frac (int frac rest : Bytes) (hi : ∀ c ∈ int, isDi
     | [_, f1], hf => simp [hf f1 (by simp), h3]
     | _ :: f1 :: f2 :: _, hf => simp [hf f1 (by simp), (digit_nosep (hf f2 (by simp))).2.2]
 
-/-- **A number is not a date.** -/
-theorem looksLikeDate_number (int : Bytes) (frac : Option Bytes) (rest : Bytes)
-    (hi : ∀ c ∈ int, isDigit c = true) (hf : ∀ f, frac = some f → ∀ c ∈ f, isDigit c = true)
-    (hr : DateStop rest) :
-    looksLikeDate (int ++ (match frac with | none => [] | some f => 0x2E :: f) ++ rest) = false := by
-  cases frac with
-  | none =>
-    simp only [List.append_nil]
-    unfold looksLikeDate
-    split
-    · rfl
-    · exact looksLikeDateCore_int int rest hi hr
-  | some f =>
-    simp only
-    unfold looksLikeDate
-    split
-    · rfl
-    · simpa using looksLikeDateCore_frac int f rest hi (hf f rfl) hr
+/-- **A number is not a date**: `digits` … -/
+theorem looksLikeDate_int (int rest : Bytes) (hi : ∀ c ∈ int, isDigit c = true) (hr : DateStop rest) :
+    looksLikeDate (int ++ rest) = false := by
+  unfold looksLikeDate
+  split
+  · rfl
+  · exact looksLikeDateCore_int int rest hi hr
+
+/-- … and `digits '.' digits`. -/
+theorem looksLikeDate_frac (int frac rest : Bytes) (hi : ∀ c ∈ int, isDigit c = true)
+    (hf : ∀ c ∈ frac, isDigit c = true) (hr : DateStop rest) :
+    looksLikeDate (int ++ 0x2E :: frac ++ rest) = false := by
+  unfold looksLikeDate
+  split
+  · rfl
+  · exact looksLikeDateCore_frac int frac rest hi hf hr
 
 end HL.Lex
